@@ -47,6 +47,9 @@ fn pair_scripts() -> Vec<(Vec<(usize, Step)>, usize)> {
         // a value with the empty encoding (None) is the last one handed to the store
         (sequential(&[vec![link("o"), act(&["@seto(5)"]), act(&["@clro"])]]), 1),
         (sequential(&[vec![sync("o"), act(&["@clro"]), act(&["@seto(6)", "@setv(1)"]), act(&["@clro"])]]), 1),
+        // map entries whose value has the empty encoding (None), then a restart
+        (sequential(&[vec![link("om"), act(&["@updom{k:1,v:5}", "@nilom(2)"]), act(&["@nilom(1)", "@updom{k:3,v:4}"])]]), 1),
+        (sequential(&[vec![sync("om"), act(&["@nilom(1)"]), act(&["@nilom(2)", "@remom(1)"]), act(&["@updom{k:2,v:2}", "@nilom(3)"])]]), 1),
         (sequential(&[vec![sync("w"), cmd("w", "5"), act(&["@setws(6)", "@setvs(6)"]), cmd("w", "6"), cmd("v", "6"), act(&["@setws(5)"]), cmd("w", "5")]]), 1),
     ]
 }
